@@ -1614,6 +1614,10 @@ func (c *FnCtx) typeAssert(p *Path, x *ssa.TypeAssert) {
 				c.assumeRangesIf(p, ok, res, at)
 			default:
 				res = c.symbolic(p, x.Name(), at)
+				if res.K == KSlice {
+					// the length of a slice boxed in an interface is a function of the box (contracts: boxlen(x))
+					p.assume(fmt.Sprintf("(= %s (box_len %s))", res.Len, v.IVal))
+				}
 			}
 		}
 	}
